@@ -2,7 +2,7 @@
     (scico/optimize/_primaldual.py, _padmm.py), generic in the scalar, and their theorems at R.
 
     PDHG:            factor None -> 1.0;  Cnrm = operator_norm(J)
-                     tau = sqrt(factor / ratio) / Cnrm;  sigma = ratio * tau
+                     tau = sqrt(1.0 / (factor * ratio)) / Cnrm;  sigma = ratio * tau
     ProximalADMM /   mu = operator_norm(A)**2; nu = operator_norm(B)**2
     NonLinearPADMM:  factor None -> (mu, nu)  else (factor * mu, factor * nu) *)
 From Coq Require Import Reals Lra Psatz.
@@ -19,10 +19,10 @@ Section Model.
     end.
   Definition eff_factor (factor : option K) : K := match factor with None => k1 | Some f => f end.
   Definition pdhg_est (ksqrt : K -> K) (factor : option K) (ratio est : K) : K * K :=
-    let tau := kdiv (ksqrt (kdiv (eff_factor factor) ratio)) est in (tau, kmul ratio tau).
+    let tau := kdiv (ksqrt (kdiv k1 (kmul (eff_factor factor) ratio))) est in (tau, kmul ratio tau).
   (** tau^2, computable without a square root (used by the harness at Qc) *)
   Definition pdhg_tau2 (factor : option K) (ratio est : K) : K :=
-    kdiv (kdiv (eff_factor factor) ratio) (ksq est).
+    kdiv (kdiv k1 (kmul (eff_factor factor) ratio)) (ksq est).
 End Model.
 
 (** ** ProximalADMM / NonLinearPADMM *)
@@ -51,7 +51,7 @@ Section PDHG.
   Variables (factor : option R) (ratio est : R).
   Hypothesis ratio_pos : 0 < ratio.
   Hypothesis est_pos : 0 < est.
-  Hypothesis factor_nonneg : 0 <= eff_factor factor.
+  Hypothesis factor_pos : 0 < eff_factor factor.
   Let tau := fst (pdhg_est sqrt factor ratio est).
   Let sigma := snd (pdhg_est sqrt factor ratio est).
 
@@ -60,67 +60,75 @@ Section PDHG.
 
   Lemma pdhg_tau_sq : tau * tau = pdhg_tau2 factor ratio est.
   Proof.
-    unfold tau, pdhg_est, pdhg_tau2, ksq. cbn [fst kdiv kmul Num_R].
+    unfold tau, pdhg_est, pdhg_tau2, ksq. cbn [fst kdiv kmul k1 Num_R].
     set (f := eff_factor factor) in *.
-    assert (0 <= f / ratio) by (apply Rmult_le_pos; auto; left; apply Rinv_0_lt_compat; auto).
-    replace (sqrt (f / ratio) / est * (sqrt (f / ratio) / est))
-      with (sqrt (f / ratio) * sqrt (f / ratio) / (est * est)) by (field; lra).
+    assert (0 < f * ratio) by (apply Rmult_lt_0_compat; auto).
+    assert (0 <= 1 / (f * ratio)) by (left; apply Rdiv_lt_0_compat; lra).
+    replace (sqrt (1 / (f * ratio)) / est * (sqrt (1 / (f * ratio)) / est))
+      with (sqrt (1 / (f * ratio)) * sqrt (1 / (f * ratio)) / (est * est)) by (field; lra).
     rewrite sqrt_sqrt by auto. reflexivity.
   Qed.
 
-  Lemma pdhg_tau_nonneg : 0 <= tau.
+  Lemma pdhg_tau_pos : 0 < tau.
   Proof.
-    unfold tau, pdhg_est. cbn [fst kdiv Num_R]. apply Rmult_le_pos; [apply sqrt_pos|].
-    left. apply Rinv_0_lt_compat; auto.
+    unfold tau, pdhg_est. cbn [fst kdiv kmul k1 Num_R]. apply Rdiv_lt_0_compat; auto.
+    apply sqrt_lt_R0. apply Rdiv_lt_0_compat; [lra|]. apply Rmult_lt_0_compat; auto.
   Qed.
 
-  (** tau sigma est^2 = factor (NOT 1/factor) *)
-  Theorem pdhg_product : tau * sigma * (est * est) = eff_factor factor.
+  (** tau sigma est^2 = 1 / factor *)
+  Theorem pdhg_product : tau * sigma * (est * est) = / eff_factor factor.
   Proof.
     rewrite pdhg_sigma. replace (tau * (ratio * tau) * (est * est)) with (ratio * (tau * tau) * (est * est)) by ring.
-    rewrite pdhg_tau_sq. unfold pdhg_tau2, ksq. cbn [kdiv kmul Num_R]. field. lra.
+    rewrite pdhg_tau_sq. unfold pdhg_tau2, ksq. cbn [kdiv kmul k1 Num_R]. field. repeat split; lra.
   Qed.
 
-  (** with respect to any c (e.g. the true norm): tau sigma c^2 = factor (c/est)^2 *)
-  Theorem pdhg_product_true (c : R) : tau * sigma * (c * c) = eff_factor factor * ((c / est) * (c / est)).
+  (** with respect to any c (e.g. the true norm): tau sigma c^2 = (c/est)^2 / factor *)
+  Theorem pdhg_product_true (c : R) : tau * sigma * (c * c) = / eff_factor factor * ((c / est) * (c / est)).
   Proof.
     replace (tau * sigma * (c * c)) with (tau * sigma * (est * est) * ((c / est) * (c / est))) by (field; lra).
     rewrite pdhg_product. reflexivity.
   Qed.
 
-  (** the documented strict inequality holds w.r.t. the estimate iff factor < 1 *)
-  Theorem pdhg_strict_iff : tau * sigma * (est * est) < 1 <-> eff_factor factor < 1.
-  Proof. rewrite pdhg_product. tauto. Qed.
-
-  (** and w.r.t. a norm c >= est it can only hold if factor < 1 *)
-  Theorem pdhg_strict_true_norm (c : R) : est <= c -> tau * sigma * (c * c) < 1 -> eff_factor factor < 1.
+  (** FULL statement: the documented strict inequality holds w.r.t. the estimate iff factor > 1 *)
+  Theorem pdhg_strict_iff : tau * sigma * (est * est) < 1 <-> 1 < eff_factor factor.
   Proof.
-    intros Hc. rewrite pdhg_product_true.
-    assert (1 <= c / est).
-    { apply Rmult_le_reg_r with est; auto. unfold Rdiv. rewrite Rmult_assoc, Rinv_l by lra. lra. }
-    intros. assert (1 <= (c / est) * (c / est)) by nra.
-    destruct (Rlt_dec (eff_factor factor) 1); auto. exfalso. nra.
+    rewrite pdhg_product. split; intros H.
+    - destruct (Rlt_dec 1 (eff_factor factor)); auto. exfalso.
+      assert (1 <= / eff_factor factor).
+      { rewrite <- Rinv_1. apply Rinv_le_contravar; lra. }
+      lra.
+    - rewrite <- Rinv_1. apply Rinv_lt_contravar; lra.
+  Qed.
+
+  (** w.r.t. a norm c >= est it holds iff c^2 < factor est^2 (so it needs factor > 1 and an
+      estimate accurate to the factor) *)
+  Theorem pdhg_strict_true_norm_iff (c : R) : tau * sigma * (c * c) < 1 <-> c * c < eff_factor factor * (est * est).
+  Proof.
+    rewrite pdhg_product_true.
+    replace (/ eff_factor factor * (c / est * (c / est))) with ((c * c) / (eff_factor factor * (est * est))) by (field; lra).
+    assert (0 < eff_factor factor * (est * est)) by (apply Rmult_lt_0_compat; nra).
+    split; intros H0.
+    - apply (Rmult_lt_compat_r (eff_factor factor * (est * est))) in H0; auto.
+      unfold Rdiv in H0. rewrite Rmult_assoc, Rinv_l, Rmult_1_r, Rmult_1_l in H0 by lra. exact H0.
+    - apply (Rmult_lt_reg_r (eff_factor factor * (est * est))); auto.
+      unfold Rdiv. rewrite Rmult_assoc, Rinv_l, Rmult_1_r, Rmult_1_l by lra. exact H0.
   Qed.
 End PDHG.
 
-(** factor = None behaves as factor = 1: the product is exactly 1, still not < 1 *)
+(** factor = None behaves as factor = 1: the product is exactly 1 (not strict) *)
 Theorem pdhg_none_product (ratio est : R) : 0 < ratio -> 0 < est ->
   let '(tau, sigma) := pdhg_est sqrt None ratio est in tau * sigma * (est * est) = 1.
 Proof.
   intros Hr He. pose proof (pdhg_product None ratio est Hr He) as P. cbn [eff_factor k1 Num_R] in P.
-  apply P. lra.
+  rewrite Rinv_1 in P. apply P. lra.
 Qed.
 
-(** the default factor 1.01 puts PDHG on the wrong side for EVERY ratio, estimate and norm *)
-Theorem pdhg_default_wrong_side (ratio est c : R) : 0 < ratio -> 0 < est -> est <= c ->
-  let '(tau, sigma) := pdhg_est sqrt (Some (101 / 100)) ratio est in 1 < tau * sigma * (c * c).
+(** the default factor 1.01 is on the documented side for EVERY ratio and estimate *)
+Theorem pdhg_default_strict (ratio est : R) : 0 < ratio -> 0 < est ->
+  let '(tau, sigma) := pdhg_est sqrt (Some (101 / 100)) ratio est in tau * sigma * (est * est) < 1.
 Proof.
-  intros Hr He Hc.
-  pose proof (pdhg_product_true (Some (101 / 100)) ratio est Hr He ltac:(cbn; lra) c) as P.
-  cbn [eff_factor] in P. cbv zeta in P.
-  destruct (pdhg_est sqrt (Some (101 / 100)) ratio est) as [tau sigma] eqn:E. cbn [fst snd] in P.
-  rewrite P.
-  assert (1 <= c / est).
-  { apply Rmult_le_reg_r with est; auto. unfold Rdiv. rewrite Rmult_assoc, Rinv_l by lra. lra. }
-  assert (1 <= (c / est) * (c / est)) by nra. nra.
+  intros Hr He.
+  pose proof (proj2 (pdhg_strict_iff (Some (101 / 100)) ratio est Hr He ltac:(cbn; lra))) as P.
+  cbn [eff_factor] in P.
+  destruct (pdhg_est sqrt (Some (101 / 100)) ratio est) as [tau sigma]. cbn [fst snd] in P. apply P. lra.
 Qed.
